@@ -405,27 +405,13 @@ Qed.
 (* ------------------------------------------------------------------------- *)
 (* the table NameBuilder produces is a legal input of the registration theorems *)
 
-Lemma nb_run_ids_reserved : forall adds major minor vendor,
-  NoDup (map fst adds) -> Forall (fun a => fst a <= 255) adds ->
-  ids_reserved (nb_run adds major minor vendor).
+Lemma nb_run_nodup : forall adds major minor vendor,
+  NoDup (map fst adds) -> NoDup (map fst (nb_run adds major minor vendor)).
 Proof.
-  intros adds major minor vendor ND R. unfold ids_reserved. rewrite Forall_forall. intros [k v] H.
-  apply (nb_run_spec adds major minor vendor k v ND) in H as [H _]. cbn [fst].
-  unfold spec_name in H.
-  destruct (spec_pre (supplied adds) major minor vendor (fst k)) as [x|] eqn:E; [|discriminate].
-  clear H. unfold spec_pre in E.
-  destruct (N.eqb_spec (fst k) 1) as [->|N1]; [lia|].
-  destruct (N.eqb_spec (fst k) 2) as [->|N2]; [lia|].
-  destruct (N.eqb_spec (fst k) 3) as [->|N3]; [lia|].
-  destruct (N.eqb_spec (fst k) 4) as [->|N4]; [lia|].
-  destruct (N.eqb_spec (fst k) 5) as [->|N5]; [lia|].
-  destruct (N.eqb_spec (fst k) 6) as [->|N6]; [lia|].
-  destruct (N.eqb_spec (fst k) 16) as [->|N16]; [lia|].
-  destruct (N.eqb_spec (fst k) 17) as [->|N17]; [lia|].
-  unfold supplied in E.
-  destruct (find (fun a : N * str => fst a =? fst k) adds) as [a|] eqn:F; [|discriminate].
-  apply find_some in F as [F1 F2]. apply N.eqb_eq in F2. rewrite Forall_forall in R.
-  specialize (R a F1). cbv beta in R. lia.
+  intros adds major minor vendor ND. unfold nb_run, nb_build.
+  destruct (adds_spec adds nb_empty nb_wf_empty ND) as [W _]; [intros; reflexivity|].
+  destruct (nb_build_state_spec _ major minor vendor W) as [[WB _] _].
+  apply filter_nodup_keys. exact WB.
 Qed.
 
 Lemma nb_run_nonempty : forall adds major minor vendor,
